@@ -40,6 +40,12 @@
     any history); chunks with an unknown structure ID are invisible (refuted
     clause, open finding), and the tools' default configuration accepts a
     permuted CBnT manifest (refuted clause, open finding).
+    Section 5 (Model/ManifestRead.v) is about what the constructors NewKM / NewBPM
+    hand to the codec: the WHOLE file, whatever its length (signed files range
+    from half a KiB to more than 64 KiB) and whatever bytes it ends with (a signed
+    file ends with the signature value); the verdict depends on nothing else, and
+    a constructor that shortens its input -- a length limit, cutting off filler
+    bytes at the end -- refuses files the suite has just signed.
     Which of the glue conditions fail in the real code is recorded by the
     [_refuted] theorems and the KNOWN_FINDINGS entries of C18.
 
@@ -49,7 +55,7 @@
     C18_keymatch_is_binding_bg/_cbnt, C18_keymatch_closed_bg/_cbnt), the panic of
     DecryptPrivKey on short input (4423a4c: C18_decrypt_short_input_is_error,
     C18_decrypt_never_panics). *)
-From CSS Require Import Lib.Base Lib.Cases Model.Manifest Proofs.Manifest Model.ManifestOrder Proofs.ManifestOrder.
+From CSS Require Import Lib.Base Lib.Cases Model.Manifest Proofs.Manifest Model.ManifestOrder Proofs.ManifestOrder Model.ManifestRead Proofs.ManifestRead.
 From Coq Require Import Sorting.Permutation.
 From Coq Require Strings.String.
 Import String.StringSyntax.
@@ -862,3 +868,78 @@ Example C18_password_example :
   decrypt_priv ToyK (encrypt_priv ToyK [112;119] nonce [45;99;45]) [112;120] = Err 1 /\
   decrypt_priv ToyK (encrypt_priv ToyK [112;119] nonce [45;99;45]) [] = Err 2.
 Proof. exact password_example. Qed.
+
+(** * 5. What the constructors hand to the codec: the whole file *)
+
+(** NewKM / NewBPM pass their reader on as it is: the verdict of the code on a file
+    is the glue of section 1 on the codec's reading of ALL bytes of the file --
+    for files of every length and with every last byte (no size bound, no
+    condition on the content in any theorem of this file). *)
+Theorem C18_constructor_hands_whole_file :
+  forall (E : env) d file, verify_file E d file = verify_file_via E (fun f => f) d file.
+Proof. intros. symmetry. apply verify_file_via_id. Qed.
+Print Assumptions C18_constructor_hands_whole_file.
+
+Theorem C18_verdict_is_codec_on_handed_bytes :
+  forall (E : env) pre d file,
+  verify_file_via E pre d file = Ok tt <->
+  exists g m, detect file = Some g /\ parse E g d (pre file) = Some m /\ verify_manifest E g d m = true.
+Proof. exact verify_file_via_ok_iff. Qed.
+Print Assumptions C18_verdict_is_codec_on_handed_bytes.
+
+(** PARTIAL (hypothesis on the third-party codec: no proper prefix of the file
+    parses to a structure that verifies -- [prefix_tight], tested by the harness:
+    truncations of signed files are refused): a constructor that hands over a
+    proper prefix of a file refuses the file.  With C18_sign_verify_bg10 /
+    C18_sign_verify_cbnt_bpm_fitting (the code accepts what it signed) such a
+    constructor breaks "signed by the suite verifies with the suite" on every
+    signed file it shortens. *)
+Theorem C18_shortening_constructor_refuses_partial :
+  forall (E : env) pre d file g n,
+  detect file = Some g ->
+  pre file = firstn n file -> (n < length file)%nat ->
+  prefix_tight E g d file ->
+  verify_file_via E pre d file <> Ok tt.
+Proof. exact shortening_refuses. Qed.
+Print Assumptions C18_shortening_constructor_refuses_partial.
+
+(** A length limit shortens every longer file ... *)
+Theorem C18_length_limit_refuses_longer_files_partial :
+  forall (E : env) d file g n,
+  detect file = Some g -> (n < length file)%nat -> prefix_tight E g d file ->
+  verify_file_via E (firstn n) d file <> Ok tt.
+Proof. exact limit_refuses. Qed.
+Print Assumptions C18_length_limit_refuses_longer_files_partial.
+
+(** ... and cutting off trailing filler bytes shortens every file that ends with
+    the filler byte (for a signed file: 1 signature in 256), and no other. *)
+Theorem C18_trimming_is_shortening :
+  forall x f, f <> [] -> last f 0 = x ->
+  exists n, (n < length f)%nat /\ trim_trailing x f = firstn n f.
+Proof. exact trim_is_shortening. Qed.
+Print Assumptions C18_trimming_is_shortening.
+
+Theorem C18_trimming_keeps_other_files :
+  forall x f, last f (x + 1) <> x -> trim_trailing x f = f.
+Proof. exact trim_trailing_id. Qed.
+Print Assumptions C18_trimming_keeps_other_files.
+
+Theorem C18_trimming_refuses_files_ending_with_filler_partial :
+  forall (E : env) d file g x,
+  detect file = Some g -> file <> [] -> last file 0 = x -> prefix_tight E g d file ->
+  verify_file_via E (trim_trailing x) d file <> Ok tt.
+Proof. exact trim_refuses. Qed.
+Print Assumptions C18_trimming_refuses_files_ending_with_filler_partial.
+
+(** The hypotheses are satisfiable, and the conclusions bite: in the toy codec a
+    key manifest signed by the suite that ends with 255 is accepted by the code,
+    refused under every length limit below its length and refused by a
+    constructor that cuts off trailing 255s. *)
+Example C18_cautious_constructors_example :
+  exists (E : env) d m sch req sk file,
+    sign_manifest E V10 d m sch req sk = Ok file /\
+    verify_file E d file = Ok tt /\
+    last file 0 = 255 /\
+    (forall n, (n < length file)%nat -> verify_file_via E (firstn n) d file <> Ok tt) /\
+    verify_file_via E (trim_trailing 255) d file <> Ok tt.
+Proof. exact toy_cautious_constructors_break_sign_verify. Qed.
